@@ -181,7 +181,7 @@ func TestC08Searchers(t *testing.T) {
 	checkPropN(t, "C08", 500, func(t *rapid.T) {
 		oldTakeover := setHeapTakeover(rapid.SampledFrom([]int{2, 10}).Draw(t, "heapTakeover"))
 		defer setHeapTakeover(oldTakeover)
-		c := BuildCorpus(t, CorpusOpts{MaxSteps: 7})
+		c := BuildCorpus(t, CorpusOpts{MaxSteps: 10})
 		adv, err := c.Idx.Advanced()
 		if err != nil {
 			t.Fatalf("Advanced: %v", err)
@@ -201,7 +201,8 @@ func TestC08Searchers(t *testing.T) {
 			env.opts = search.SearcherOptions{Explain: true}
 		}
 		targets := c08Targets(c, reader)
-		g := QGen{}
+		// leaf kinds that usually match several documents are over-weighted so that programs have matches to skip
+		g := QGen{LeafKinds: append(append([]string{}, allLeafKinds...), "all", "prefix", "prefix", "term", "wildcard", "match", "termrange")}
 		for qi := 0; qi < 3; qi++ {
 			q := g.Tree(t, fmt.Sprintf("q%d", qi), 3)
 			if v, ok := q.Bleve().(interface{ Validate() error }); ok && v.Validate() != nil {
